@@ -194,6 +194,55 @@ impl World {
 		let dest = self.nodes[n].wallet.get_change_script().unwrap();
 		let secp = Secp256k1::new();
 		let mut any = false;
+		// C07-4: what can be spent one by one can also be spent in one transaction (an application
+		// or OutputSweeper batches every pending descriptor); the batch is only built and checked,
+		// the simulated user still sweeps one output per transaction
+		let unspent: Vec<PendingSweep> =
+			pend.iter().filter(|s| self.chain.utxos.contains_key(&s.outpoint)).cloned().collect();
+		if unspent.len() >= 2 && !self.batch_sweep_checked.contains(&(n, unspent.len(), unspent[0].outpoint)) {
+			self.batch_sweep_checked.insert((n, unspent.len(), unspent[0].outpoint));
+			let keys = self.nodes[n].keys.clone();
+			let descs: Vec<&SpendableOutputDescriptor> = unspent.iter().map(|s| &s.desc).collect();
+			self.out.bump("oracle:C07-4 pending outputs can be swept in one transaction");
+			let batch = catch(|| keys.km.spend_spendable_outputs(&descs, Vec::new(), dest.clone(), 253, None, &secp));
+			let total: u64 = unspent.iter().map(|s| s.value_sat).sum();
+			match batch {
+				Ok(Ok(tx)) => {
+					// scripts must verify against the real previous outputs
+					let prev = |op: &bitcoin::OutPoint| self.chain.utxos.get(op).map(|u| u.out.clone());
+					if let Err(e) = tx.verify(prev) {
+						self.violate(
+							"C07",
+							"C07-4 SpendableOutputs descriptor cannot be spent by the node's keys",
+							format!("node {} batch sweep of {} outputs fails script verification: {:?}", n, unspent.len(), e),
+						);
+					}
+				},
+				Ok(Err(())) => {
+					let each_ok = unspent.iter().all(|s| {
+						catch(|| keys.km.spend_spendable_outputs(&[&s.desc], Vec::new(), dest.clone(), 253, None, &secp))
+							.map(|r| r.is_ok())
+							.unwrap_or(false)
+					});
+					if each_ok && total > 2000 {
+						self.violate(
+							"C07",
+							"C07-4 SpendableOutputs descriptor cannot be spent by the node's keys",
+							format!(
+								"node {}: spend_spendable_outputs fails for its {} pending outputs together ({} sat) although each can be spent on its own",
+								n,
+								unspent.len(),
+								total
+							),
+						);
+					}
+				},
+				Err((m, l)) => {
+					self.library_panic("Sweep", m, l);
+					return true;
+				},
+			}
+		}
 		for s in pend {
 			// done already?
 			if !self.chain.utxos.contains_key(&s.outpoint) {
